@@ -1737,3 +1737,40 @@ Proof.
 Qed.
 
 End HistC11.
+
+(* ------------------------------------------------------------------ the corner in which get_trust
+   does NOT return the last computed score: add_pre_trusted overwrites it with 0.9 *)
+Definition query_full : Prop := forall (ln1p : N -> R) pre ops1 d ops2 i,
+  let st := reach ln1p pre ops1 in
+  In i (map fst (@global_trust RF ln1p st d)) ->
+  Forall (fun o => match o with Compute _ => False | RemoveNode j => j <> i | _ => True end) ops2 ->
+  snd (@step RF ln1p (fst (@run RF ln1p (fst (@step RF ln1p st (Compute d))) ops2)) (Query i))
+  = @OVal RF (@vget RF (@global_trust RF ln1p st d) i).
+
+Lemma anchor_initial_add_R : @of_Q RF TRUST_ANCHOR_INITIAL_ADD = 9 / 10.
+Proof. unfold of_Q, TRUST_ANCHOR_INITIAL_ADD. cbn. lra. Qed.
+
+Lemma query_full_refuted : ~ query_full.
+Proof.
+  intro H. set (ln0 := fun _ : N => 0).
+  assert (Hln : forall x, 0 <= ln0 x) by (intro; unfold ln0; lra).
+  specialize (H ln0 [] [UpdStats 1 UCorrect] 1 [@AddPre RF 1] 1%N). cbv zeta in H.
+  set (st := reach ln0 [] [UpdStats 1 UCorrect]) in *.
+  assert (Hwf : wf st) by apply reach_wf.
+  assert (Hks : @keys RF st = [1%N]) by reflexivity.
+  assert (Hne : @node_set RF st <> []) by (intro E; discriminate E).
+  assert (Hin : In 1%N (map fst (@global_trust RF ln0 st 1))).
+  { rewrite (global_trust_R ln0 st 1 Hwf Hne), Hks. simpl. now left. }
+  specialize (H Hin). assert (HF : Forall (fun o : op RF => match o with Compute _ => False | RemoveNode j => j <> 1%N | _ => True end) [@AddPre RF 1]).
+  { constructor; [exact I|constructor]. }
+  specialize (H HF). rewrite query_answer in H. cbn [snd] in H.
+  assert (HL : answer (fst (@run RF ln0 (fst (@step RF ln0 st (@Compute RF 1))) [@AddPre RF 1])) 1 = 9 / 10).
+  { unfold answer. cbn [run step fst st_cache]. rewrite aget_aset, N.eqb_refl. apply anchor_initial_add_R. }
+  rewrite HL in H. injection H as H.
+  pose proof (global_trust_good ln0 Hln st 1 Hwf ltac:(lra)) as [_ Hg].
+  rewrite (global_trust_R ln0 st 1 Hwf Hne), Hks in Hg, H. cbn [map snd] in Hg.
+  unfold vget in H. cbn [map aget] in H. rewrite N.eqb_refl in H.
+  destruct Hg as [Hg|Hg].
+  - unfold Rsum in Hg. cbn [fold_right] in Hg. lra.
+  - specialize (Hg 1%N (score ln0 st 1 1) (or_introl eq_refl)). lra.
+Qed.
